@@ -406,10 +406,10 @@ func runC17(env *lib.Env, rep *lib.Report) {
 	if env.Thorough() {
 		depth = 6
 	}
-	seeds := []string{"empty", "a-with-row+b", "a-with-12-rows+b", "journeys"}
+	seeds := []string{"empty", "a-with-row+b", "a-with-12-rows+b", "journeys", "journeys-7-tables"}
 	rep.Bounds["depth"] = fmt.Sprintf("quick: 4 from the one-row seed and from the empty directory, 3 from the flushed 12-row seed; thorough: 6 / 5 / 4 (this run: tier depth %d)", depth)
 	rep.Bounds["seeds"] = seeds
-	rep.Bounds["journeys"] = "from the flushed 12-row seed: every sequence of 5 (thorough 6) steps over {TICK, UPDATE all rows, UPDATE last row, INSERT, USE b + USE a, USE a, RESTART + USE a}"
+	rep.Bounds["journeys"] = "from the flushed 12-row seed and from a flushed seed with seven tables (t holding 8 rows): every sequence of 5 (thorough 6) steps over {TICK, UPDATE all rows, UPDATE last row, INSERT, USE b + USE a, USE a, RESTART + USE a}"
 	rep.Bounds["events"] = "CREATE DATABASE a|B, USE a|b|A|B|nosuch (names are case-insensitive), CREATE TABLE t, CREATE TABLE u1/u2/.. (the next unused name), INSERT, UPDATE (all rows), TICK of every live store (including abandoned ones), RESTART; SHOW DATABASES and read-back are checked after every event"
 	known := env.OpenKnown()
 	explore(env, rep, 0, func(c *lib.Ctx) {
@@ -436,6 +436,15 @@ func runC17(env *lib.Env, rep *lib.Report) {
 		c.Logf("seed %s", seed)
 		if seed != "empty" {
 			script := []string{"CREATE DATABASE a", "CREATE DATABASE B", "USE a", "CREATE TABLE t", "INSERT"}
+			if seed == "journeys-7-tables" {
+				// a page table of two levels (seven user tables), table t one row short of its first split
+				for i := 0; i < 6; i++ {
+					script = append(script, "CREATE TABLE u<next>")
+				}
+				for i := 0; i < 7; i++ {
+					script = append(script, "INSERT")
+				}
+			}
 			if seed == "a-with-12-rows+b" || seed == "journeys" {
 				// a table whose root is no longer a leaf
 				for i := 0; i < 11; i++ {
@@ -452,7 +461,7 @@ func runC17(env *lib.Env, rep *lib.Report) {
 					}
 				}
 			}
-			if seed == "a-with-12-rows+b" || seed == "journeys" {
+			if seed == "a-with-12-rows+b" || seed == "journeys" || seed == "journeys-7-tables" {
 				// flushed: every page of the table is clean, so later changes must dirty exactly the pages they touch
 				for _, e := range w.events() {
 					if strings.HasPrefix(e.name, "TICK store#0") {
@@ -495,7 +504,7 @@ func runC17(env *lib.Env, rep *lib.Report) {
 				steps = depth - 2
 			}
 		}
-		if seed == "journeys" {
+		if seed == "journeys" || seed == "journeys-7-tables" {
 			// longer histories over a reduced alphabet of whole steps (each may be several statements): what one
 			// database goes through when it is written, flushed, left, re-entered and restarted again and again
 			macros := [][]string{{"TICK store#0"}, {"UPDATE"}, {"UPDATE last row"}, {"INSERT"}, {"USE b", "USE a"}, {"USE a"}, {"RESTART", "USE a"}}
